@@ -1,4 +1,4 @@
-import PbVerif.Lemmas.WktJsonDigits
+import PbVerif.Lemmas.WktJsonDuration
 import PbVerif.Lemmas.WktJsonCivil
 /-! Helper lemmas for C23: `parseTime`/`unmarshalTimestamp` on the text produced by `fmtTimestamp`. -/
 set_option linter.unusedSimpArgs false
@@ -101,7 +101,10 @@ theorem parseTime_text (Y M D h mi s : Nat) (hY : Y < 10000) (hM : 1 ≤ M ∧ M
       some (daysFromCivil Y M D * 86400 + ((h * 3600 + mi * 60 + s : Nat) : Int), N) := by
   have hD100 : D < 100 := by
     have : daysIn (Y : Int) (M : Int) ≤ 31 := by
-      unfold daysIn; split <;> [split; split] <;> omega
+      unfold daysIn
+      split
+      · split <;> omega
+      · split <;> omega
     omega
   unfold parseTime dateTimeText
   simp only [List.append_assoc, List.cons_append]
@@ -160,9 +163,6 @@ theorem lastIndex_mid (p : Char → Bool) (a : Str) (c : Char) (b : Str) (hc : p
 theorem lastIndex_none (p : Char → Bool) (a : Str) (h : ∀ c ∈ a, p c = false) : lastIndex p a = none :=
   lastIndexAux_none p a 0 none h
 
-/-- no '.' in digits, '-', 'T', ':' -/
-def plainChar (c : Char) : Prop := c ≠ '.'
-
 theorem digit_ne_dot {c : Char} (h : isDigit c = true) : c ≠ '.' := by
   intro e; subst e; simp [isDigit_dot] at h
 
@@ -183,7 +183,7 @@ theorem dateTimeText_no_dot (Y M D h mi s : Nat) : ∀ c ∈ dateTimeText Y M D 
   · subst hc; decide
   · exact hd _ _ hc
 
-theorem tooManyFracDigits_text (pre ds : Str) (hpre : ∀ c ∈ pre, c ≠ '.') (hds : allDigits ds) (hl : ds.length ≤ 9) :
+theorem tooManyFracDigits_text (pre ds : Str) (hds : allDigits ds) (hl : ds.length ≤ 9) :
     tooManyFracDigits (pre ++ ('.' :: ds ++ ['Z'])) = false := by
   unfold tooManyFracDigits
   have hi : lastIndex (fun c => decide (c = '.')) (pre ++ ('.' :: ds ++ ['Z'])) = some pre.length := by
@@ -195,7 +195,7 @@ theorem tooManyFracDigits_text (pre ds : Str) (hpre : ∀ c ∈ pre, c ≠ '.') 
       · subst hx; decide)
     simpa using this
   have hj : lastIndex (fun c => decide (c = 'Z' ∨ c = '-' ∨ c = '+')) (pre ++ ('.' :: ds ++ ['Z'])) =
-      some (pre.length + 1 + ds.length) := by
+      some (pre.length + (ds.length + 1)) := by
     have := lastIndex_mid (fun c => decide (c = 'Z' ∨ c = '-' ∨ c = '+')) (pre ++ '.' :: ds) 'Z' [] (by simp) (by
       intro x hx; cases hx)
     simpa [List.append_assoc, Nat.add_assoc] using this
